@@ -10,7 +10,7 @@ and `lysp_ext_instance_resolve_argument` (`tree_schema_common.c`, the `LY_VALUE_
 `Yin/Xml.lean`.  The keyword trie is `YangStr.matchKw` (`lysp_match_kw`, generated).  Core Lean only.
 -/
 namespace LyModel.Yin
-open LyModel LyModel.Generated
+open LyModel LyModel.Generated LyModel.XmlLex
 
 /-- result of `yin_match_keyword` -/
 inductive MKw where
@@ -19,6 +19,12 @@ inductive MKw where
 
 def sText : Bytes := [116, 101, 120, 116]
 def sErrMsg : Bytes := [101, 114, 114, 111, 114, 45, 109, 101, 115, 115, 97, 103, 101]
+
+/-- the test for the argument element `text`: `strncmp(start, "text", name_len) == 0` (a prefix test), or — with the repair of F342,
+    `exact` = `Generated.yinTextExact` — the exact name -/
+def textMatch (exact : Bool) (name : Bytes) : Bool := if exact then name == sText else name.isPrefixOf sText
+
+theorem textMatch_text (b : Bool) : textMatch b sText = true := by cases b <;> decide
 
 /-- `yin_match_keyword(ctx, name, name_len, prefix, prefix_len, parent)` -/
 def matchKeyword (ns : List XNs) (name : Bytes) (pfx : Option Bytes) (parent : YKw) : MKw :=
@@ -30,7 +36,7 @@ def matchKeyword (ns : List XNs) (name : Bytes) (pfx : Option Bytes) (parent : Y
     let r := YangStr.matchKw name
     if r.2.1 == name.length then
       if r.1 then (if name == sValue && parent == .kw sErrMsg then .argValue else .kw name) else .none
-    else if name.isPrefixOf sText then .argText      -- `strncmp(start, "text", name_len) == 0`
+    else if textMatch yinTextExact name then .argText
     else .none
 
 /-- `yin_parse_attribute(ctx, arg_type, &arg_val, Y_MAYBE_STR_ARG, …)`; `expected` is the spelling of `arg_type`
@@ -98,7 +104,8 @@ def parseExtArg (k : Option Bytes) (cx : XCtx) : Except YErr (XCtx × Option Byt
             | .ok c5 =>
               match ctxNext c5 with
               | .error e => .error e
-              | .ok c6 => .ok (c6, some c5.value)
+              | .ok c6 =>
+                if yinTextStrict && decide (c6.status ≠ .elemClose) then .error .invalid else .ok (c6, some c5.value)
 
 /-- `prefix:name` or `name` -/
 def qualName (pfx : Option Bytes) (name : Bytes) : Bytes :=
@@ -177,9 +184,15 @@ def parseGeneric : (fuel : Nat) → (parent : YKw) → XCtx → Except YErr (XCt
         | .ok c2 =>
           (parseKids f kw c2).map fun (c, kids) => (c, YStmt.mk name kw arg flags (attrs ++ kids))
       else
-        -- text content: it replaces the argument
+        -- text content: it replaces the argument; with the repair of F341 (`Generated.yinTextStrict`) only an extension-keyword
+        -- element may have text content, and no sub-element may follow it
+        if yinTextStrict && !c1.value.isEmpty && decide (kw ≠ .ext) then .error .invalid else
         let arg' := if c1.value.isEmpty then arg else some c1.value
-        (ctxNext c1).map fun c => (c, YStmt.mk name kw arg' flags attrs)
+        match ctxNext c1 with
+        | .error e => .error e
+        | .ok c =>
+          if yinTextStrict && decide (c.status ≠ .elemClose) then .error .invalid
+          else .ok (c, YStmt.mk name kw arg' flags attrs)
 /-- `while (status == LYXML_ELEMENT) { parse subelement; next; }` -/
 def parseKids : (fuel : Nat) → (parent : YKw) → XCtx → Except YErr (XCtx × List YStmt)
   | 0, _, _ => .error .invalid
